@@ -400,6 +400,8 @@ func genC04(seed uint64, run int, tier string) *Case {
 				op.Kind = "int"
 			case 3:
 				op.Kind = "str"
+			case 4:
+				op.Kind = "evalmut" // evaluate, the caller edits what it got back and its (private) input, evaluate again
 			}
 			if g.r.p(0.1) {
 				op.Res = append(op.Res, g.r.n(len(g.res)))
@@ -443,7 +445,7 @@ func genC04(seed uint64, run int, tier string) *Case {
 // (values, positions, tape) still come from the seed.
 
 var c04Shapes = []func(r rng, tier string) *Case{
-	shapeCanary, shapeWhereSwitch, shapeTickBetweenNow, shapeTZLiteral, shapePatchShared, shapeStallCompile, shapeClockExact, shapeOrder, shapeTypedCallbacks, shapePatterns, shapeTypeHistory, shapeCallerChanges, shapeZoneElements, shapeBigWalk, shapeRootCollection, shapePermissiveLegacy, shapeLiteralSharing, shapeSharedCollections,
+	shapeCanary, shapeWhereSwitch, shapeTickBetweenNow, shapeTZLiteral, shapePatchShared, shapeStallCompile, shapeClockExact, shapeOrder, shapeTypedCallbacks, shapePatterns, shapeTypeHistory, shapeCallerChanges, shapeZoneElements, shapeBigWalk, shapeRootCollection, shapePermissiveLegacy, shapeLiteralSharing, shapeSharedCollections, shapeMixedNamespaces,
 }
 
 func baseShape(r rng, tier, name string, types ...string) *genCtx {
@@ -714,6 +716,97 @@ func shapeTypeHistory(r rng, tier string) *Case {
 		var ops []Op
 		for oi := 0; oi < 4; oi++ {
 			ops = append(ops, Op{Kind: "eval", Prog: r.n(len(c.Programs)), Res: []int{0, 1}})
+		}
+		c.Clients = append(c.Clients, ops)
+	}
+	return c
+}
+
+// nodesNamed returns the pre-order indices of the messages of m whose type name is one of names.
+func nodesNamed(m proto.Message, names ...string) []int {
+	var out []int
+	i := 0
+	walkMessages(m.ProtoReflect(), func(x protoreflect.Message) {
+		n := string(x.Descriptor().Name())
+		for _, w := range names {
+			if n == w {
+				out = append(out, i)
+			}
+		}
+		i++
+	})
+	return out
+}
+
+// shapeMixedNamespaces: one node of a compiled expression (a type specifier, an operator, a
+// conversion) meets System values in one evaluation and FHIR elements of the like-named type
+// in the next - through a variable bound to one and then the other, and through collections
+// holding both. What the node does for the second must not depend on having seen the first.
+func shapeMixedNamespaces(r rng, tier string) *Case {
+	var g *genCtx
+	for try := 0; ; try++ {
+		g = baseShape(r, tier, "mixed-namespaces", "Observation", "Patient")
+		if len(nodesNamed(g.res[0], "Quantity")) > 0 || try > 6 {
+			break
+		}
+	}
+	c := g.c
+	c.Knobs.SwitchThr = pick(r, []int{0, 77, 256})
+	type pair struct {
+		tname string   // the unqualified type name both resolve to
+		sys   *SysVal  // the System value
+		fhir  []string // message names of the FHIR counterpart
+	}
+	pairs := []pair{
+		{"Quantity", &SysVal{"Quantity", "5|mg"}, []string{"Quantity"}},
+		{"String", &SysVal{"String", "abc"}, []string{"String"}},
+		{"Integer", &SysVal{"Integer", "7"}, []string{"Integer", "PositiveInt", "UnsignedInt"}},
+		{"Boolean", &SysVal{"Boolean", "true"}, []string{"Boolean"}},
+		{"DateTime", &SysVal{"DateTime", "2020-03-07T12:00:00Z"}, []string{"DateTime", "Instant"}},
+		{"Date", &SysVal{"Date", "2020-03-07"}, []string{"Date"}},
+		{"Decimal", &SysVal{"Decimal", "1.50"}, []string{"Decimal"}},
+	}
+	forms := []string{"%%tv is %s", "%%tv as %s", "%%tv.ofType(%s)", "iif(%%tv is %s, 'y', 'n')", "%%tv.select($this is %s)", "%%tv.where($this is %s).count()", "(%%tv as %s).exists()", "%%tv.select($this as %s).count()"}
+	plain := []string{"%tv", "iif(true, %tv, 'none')", "%tv.select($this)", "%tv = %tv", "%tv.toString()", "%tv.select($this = $this)", "%tv ~ %tv", "%tv.distinct().count()", "%tv.first() | %tv.last()"[:0] + "%tv.combine(%tv).distinct().count()", "%tv & 'x'"}
+	var bindings [][2]int // (System var, FHIR var) of one type name
+	var names []string
+	for _, p := range pairs {
+		ri := 0
+		idx := nodesNamed(g.res[0], p.fhir...)
+		if len(idx) == 0 {
+			ri, idx = 1, nodesNamed(g.res[1], p.fhir...)
+		}
+		if len(idx) == 0 {
+			continue
+		}
+		node := VarSpec{Kind: "node", Res: ri, Node: pick(r, idx)}
+		sv := VarSpec{Kind: "sys", Sys: p.sys}
+		base := len(c.Vars)
+		c.Vars = append(c.Vars, sv, node,
+			VarSpec{Kind: "coll", Items: []VarSpec{sv, node}}, VarSpec{Kind: "coll", Items: []VarSpec{node, sv}})
+		bindings = append(bindings, [2]int{base, base + 1}, [2]int{base + 2, base + 3})
+		names = append(names, p.tname, p.tname)
+	}
+	if len(bindings) == 0 {
+		return shapeTypeHistory(r, tier)
+	}
+	type pb struct{ prog, bind int }
+	var progs []pb
+	for i := 0; i < 6; i++ {
+		b := r.n(len(bindings))
+		src := pick(r, plain)
+		if r.p(0.8) {
+			src = fmt.Sprintf(pick(r, forms), pick(r, []string{names[b], names[b], "System." + names[b], "FHIR." + names[b]}))
+		}
+		c.Programs = append(c.Programs, ProgSpec{Src: src})
+		progs = append(progs, pb{len(c.Programs) - 1, b})
+	}
+	for ci := 0; ci < 2+r.n(2); ci++ {
+		var ops []Op
+		for oi := 0; oi < 5; oi++ {
+			p := pick(r, progs)
+			ops = append(ops, Op{Kind: pick(r, []string{"eval", "eval", "eval", "bool", "string", "evalmut"}), Prog: p.prog, Res: []int{0, 1},
+				Opts: []EOpt{{Kind: "var", Name: "tv", Var: bindings[p.bind][r.n(2)]}}})
 		}
 		c.Clients = append(c.Clients, ops)
 	}
